@@ -246,6 +246,9 @@ class Check(PropertyCheck):
         f.server_conn.tls_version = rng.choice([None, "TLSv1.2", "QUICv1"])
         f.client_conn.sni = rng.choice([None, "example.com"])
         f.is_replay = rng.choice([None, "request", "response"])
+        if kind == "http-err" and rng.chance(0.5):
+            # a flow that failed before its destination was known ("HTTP request has no host header, destination unknown")
+            f.server_conn.address = None; f.server_conn.sni = None; f.server_conn.peername = None; f.server_conn.timestamp_start = None
         return f.get_state()
 
     def generate(self, rng, tier):
@@ -275,6 +278,11 @@ class Check(PropertyCheck):
                 o_ = others_of(p)
                 yield {"kind": "dumpsplit", "file": os.path.relpath(p, REPO), "cut": cut, "between": o_[cut % len(o_)]}
         st0 = canon_in(tflow.tflow(resp=True).get_state())
+        # a flow without a destination, as formats 10..18 recorded it (server address None, sni True): fixed entry in known/C38.json
+        f0 = tflow.tflow(resp=False, err=True); f0.server_conn.address = None; f0.server_conn.sni = None
+        for to in (18, 15, 11):
+            yield {"kind": "downgrade", "to": to, "state": canon_in(f0.get_state()), "variant": "sni-auto"}
+        yield {"kind": "conv", "v": 18, "state": st0, "tweak": "sni-true-noaddr"}
         for recs in ([{"role": "hs", "id": 0}, {"role": "ws", "id": 1, "hs": 0, "sender": "client", "nmsg": 2}],
                      [{"role": "hs", "id": 0}, {"role": "ws", "id": 1, "hs": 0, "sender": "server", "nmsg": 1}, {"role": "ws", "id": 2, "hs": 0, "sender": None, "nmsg": 0}],
                      [{"role": "ws", "id": 1, "hs": 0, "sender": "client", "nmsg": 1}, {"role": "hs", "id": 0}],
@@ -325,6 +333,7 @@ class Check(PropertyCheck):
             elif r < 0.9:
                 c = {"kind": "downgrade", "to": rng.randint(MIN_SYNTH, 20), "state": canon_in(st)}
                 if c["to"] <= 16 and rng.chance(0.6): c["mode"] = rng.choice(OLD_MODES)
+                if 10 < c["to"] <= 18 and rng.chance(0.4): c["variant"] = "sni-auto"
                 if c["to"] <= 10 and rng.chance(0.5):
                     c["variant"] = "sni-bytes"
                     c["sni_hex"] = bytes(rng.choice([0x61, 0x2e, 0x80, 0xff, 0xc3, 0xa9, 0x5c, 0x00]) for _ in range(rng.randint(1, 12))).hex()
@@ -429,6 +438,12 @@ class Check(PropertyCheck):
                 # format <= 10 stored the SNI as raw bytes, which need not be ASCII
                 old["client_conn"]["sni"] = bytes.fromhex(case["sni_hex"])
                 old["server_conn"]["sni"] = bytes.fromhex(case["sni_hex"])[::-1]
+            elif variant == "sni-auto" and case["to"] <= 18:
+                # formats 10..18 stored sni=True on a server connection for "use the server address" (what a connection that
+                # never started TLS kept): applicable when today's sni is exactly that — the address host, or None without an address
+                a_ = orig["server_conn"].get("address")
+                if orig["server_conn"].get("sni") != (a_[0] if a_ else None): raise Skip()
+                old["server_conn"]["sni"] = True
             else:
                 variant = None
             # through the real file path: write the old state as a tnetstring record, read with FlowReader
@@ -635,6 +650,8 @@ class Check(PropertyCheck):
             old["client_conn"]["alpn_proto_negotiated"] = None; old["server_conn"]["alpn_proto_negotiated"] = b""
         elif t == "cipher-set":
             old["client_conn"]["cipher_name"] = "TLS_AES_128_GCM_SHA256"; old["server_conn"]["cipher_name"] = "X"
+        elif t == "sni-true-noaddr":
+            old["server_conn"]["address"] = None; old["server_conn"]["sni"] = True
         elif t == "ts-none":
             old["client_conn"]["timestamp_start"] = None
         elif t == "no-transport":
@@ -868,7 +885,7 @@ MALFORMED_TWEAKS = {"no-ssl", "no-flf", "req-int"}
 CONV_TWEAKS = {5: ["via-conn", "no-ssl"], 7: ["resp-none", "no-request", "req-int"], 8: ["req-replay", "resp-replay", "both-replay", "no-request", "resp-none", "no-flf"],
                9: ["via-conn", "no-clientcert", "alpn-none", "cipher-set"],
                10: ["sni-bytes", "sni-bytes", "sni-none", "empty-lists"], 12: ["marked-true", "marked-false"], 13: ["ts-null", "ts-null"],
-               15: ["no-request"], 18: ["host-bytes", "host-bytes", "host-bytes", "sni-true", "sni-true-bytes", "ts-none", "no-transport", "no-cipher-name"],
+               15: ["no-request"], 18: ["host-bytes", "host-bytes", "host-bytes", "sni-true", "sni-true-bytes", "sni-true-noaddr", "ts-none", "no-transport", "no-cipher-name"],
                20: ["quic", "quic-server"]}
 def _hx(v):
     return v.hex() if isinstance(v, bytes) else str(v).encode("utf-8", "surrogateescape").hex()
